@@ -2,12 +2,14 @@ use crate::run::Suite;
 use std::path::Path;
 
 pub mod c05;
+pub mod c07;
 pub mod c21;
 pub mod c31;
 
 pub fn for_property(p: &str) -> Vec<Suite> {
     match p {
         "C05" => c05::suites(),
+        "C07" => c07::suites(),
         "C21" => c21::suites(),
         "C31" => c31::suites(),
         _ => vec![],
